@@ -299,30 +299,33 @@ theorem swap_uniforms_pre_drawn {H : Type} (I : Iface H) (pos : Nat) (gs : List 
     parallelPerformSwaps I pos gs eqs s = performSwaps I pos gs eqs s :=
   parallel_eq_serial I pos gs eqs s h
 
-/-- Hence `parallel_tempering_step = tempering_step` for every ladder except the one-replica ladder
-(where the serial step returns before drawing and the rayon step draws the order word). -/
-theorem parallel_step_eq_serial {H : Type} (I : Iface H) (c : Container H) (hv : CacheValid I c)
-    (hn : c.graphs.length ≠ 1) :
+/-- Hence `parallel_tempering_step = tempering_step` for EVERY ladder (the one-replica ladder included since the
+repair of finding F30: both steps return before drawing anything). -/
+theorem parallel_step_eq_serial {H : Type} (I : Iface H) (c : Container H) (hv : CacheValid I c) :
     parallelTemperingStep I c = temperingStep I c := by
   unfold parallelTemperingStep temperingStep
-  cases hg : c.graphs with
-  | nil => simp
-  | cons a t =>
-    have h1 : ¬ (a :: t).length ≤ 1 := by
-      rw [hg] at hn; simp only [List.length_cons] at hn ⊢; omega
-    simp only [List.isEmpty_cons, Bool.false_eq_true, if_false, h1]
+  by_cases h1 : c.graphs.length ≤ 1
+  · simp only [h1, if_true]
+  · simp only [h1, if_false]
     unfold stepBody
     apply stepCore_parallel_eq
     simpa using hamEqualities_lens I c hv
 
-/-- one replica: the serial step does nothing and draws nothing; the rayon step consumes one word -/
+/-- one replica: both steps do nothing and draw nothing (before the repair of F30 the rayon step consumed the
+phase-order word and raised the replica's cutoff to itself) -/
 theorem one_replica_steps {H : Type} (I : Iface H) (c : Container H) (r : Replica H)
     (hg : c.graphs = [r]) :
-    temperingStep I c = (c, []) ∧
-    (parallelTemperingStep I c).1.graphs = [r.setCutoff (maxCutoff [r])] ∧
-    (parallelTemperingStep I c).1.rng = (c.rng.genBool (1 / 2)).2 ∧
-    (parallelTemperingStep I c).2 = [] := by
-  unfold temperingStep parallelTemperingStep stepBody stepCore
+    temperingStep I c = (c, []) ∧ parallelTemperingStep I c = (c, []) := by
+  unfold temperingStep parallelTemperingStep
+  simp [hg]
+
+/-- what the rayon step did with one replica BEFORE the repair of finding F30 (guard `is_empty()`): it ran the body,
+i.e. consumed one word of the container RNG — the regression witness -/
+theorem one_replica_old_guard_draws {H : Type} (I : Iface H) (c : Container H) (r : Replica H)
+    (hg : c.graphs = [r]) :
+    (stepBody I (parallelPerformSwaps I) c).1.rng = (c.rng.genBool (1 / 2)).2 ∧
+    (stepBody I (parallelPerformSwaps I) c).2 = [] := by
+  unfold stepBody stepCore
   simp [hg, phaseA, phaseB, firstSub, secondSub, firstLen, secondEnd, parallelPerformSwaps,
     performSwaps, drawUniforms, decideSwaps]
 
@@ -404,11 +407,11 @@ theorem step_decision_count {H : Type} (I : Iface H) {c : Container H} (h : Reac
   rw [this]
   split <;> simp [phaseALefts, phaseBLefts] <;> omega
 
-/-- on reachable ladders the rayon step is the serial step (except the one-replica ladder) -/
+/-- on reachable ladders the rayon step is the serial step (every ladder length) -/
 theorem parallel_step_eq_serial_reachable {H : Type} (I : Iface H) {c : Container H}
-    (h : Reachable I c) (hn : c.graphs.length ≠ 1) :
+    (h : Reachable I c) :
     parallelTemperingStep I c = temperingStep I c :=
-  parallel_step_eq_serial I c (reachable_cacheValid I h) hn
+  parallel_step_eq_serial I c (reachable_cacheValid I h)
 
 /-! ## 9. The edge-count check of `can_swap_managers` (finding F14, fixed) -/
 
